@@ -41,8 +41,16 @@ def _res_of(exc):
     return 'other:' + type(exc).__name__
 
 
+class Runaway(BaseException):
+    """more callback invocations than any terminating case of this size can make: the dispatch does not end"""
+
+
+MAX_CALLS = 20000
+
+
 class Runner:
     def __init__(self, case):
+        self.ncalls = 0
         import param
         from param.parameterized import batch_call_watchers, discard_events
         self.param = param
@@ -68,7 +76,9 @@ class Runner:
         for i, nm in enumerate(self.names):
             for k in self._slots_of(i):
                 setattr(self.obj.param[nm], SLOTS[k], 0)
-        self.wobjs = {}          # watcher id -> Watcher object
+        self.wobjs = {}          # watcher id -> the Watcher objects made for it, creation order (a `watch`
+                                 # statement inside a callback body registers one more each time it runs)
+        self.wall = []           # every (id, Watcher object) in creation = registration order
         self.cbs = {}            # callback id -> function (registrations may share a callback)
         self.stack = [[]]
         for w in case['watchers']:
@@ -88,9 +98,13 @@ class Runner:
         return self.obj._param__private.watchers.get(name, {}).get('value', [])
 
     def _regs(self, i, k=0):
+        # [statement id, object identity = index in creation order] of each registered Watcher object
         lst = self._wlist(self.names[i], k)
-        ids = {id(w): k for k, w in self.wobjs.items()}
-        return [ids.get(id(w), -1) for w in lst]
+        keys = {id(w): [k, u] for u, (k, w) in enumerate(self.wall)}
+        return [keys.get(id(w), [-1, -1]) for w in lst]
+
+    def _ids(self):
+        return {id(w): k for k, w in self.wall}
 
     def _val(self, i):
         return int(getattr(self.obj, self.names[i]))
@@ -101,22 +115,17 @@ class Runner:
 
     def world(self):
         p = self.obj.param
-        ids = {id(w): k for k, w in self.wobjs.items()}
+        ids = self._ids()
         b, t = self._flags()
-        regs = []
-        for k, w in self.wobjs.items():
-            if any(any(x is w for x in self._wlist(n, k)) for n in self.names for k in (0, 1, 2)):
-                regs.append(k)
+        # registration order = order of creation of the Watcher objects still registered
+        regs = [k for k, w in self.wall
+                if any(any(x is w for x in self._wlist(n, sl)) for n in self.names for sl in (0, 1, 2))]
         return {'vals': [self._val(i) for i in range(len(self.names))], 'batch': b, 'trigger': t,
                 'events': [[self.names.index(e.name), int(e.old), int(e.new), WHAT[e.what]] for e in p._events],
                 'slots': [[i, k, int(getattr(self.obj.param[n], SLOTS[k]) or 0) if k in self._slots_of(i) else 0]
                           for i, n in enumerate(self.names) for k in (1, 2)],
                 'queued': [ids.get(id(w), -1) for w in p._state_watchers],
-                'regs': self._order_regs(regs)}
-
-    def _order_regs(self, regs):
-        # registration order = order of creation of the Watcher objects still registered
-        return [k for k in self.wobjs if k in regs]
+                'regs': regs}
 
     # -- watchers -------------------------------------------------------------
     def _watch(self, w):
@@ -125,6 +134,9 @@ class Runner:
         runner = self
         if cbid not in self.cbs:
             def cb(*events, **kwargs):
+                runner.ncalls += 1
+                if runner.ncalls > MAX_CALLS:
+                    raise Runaway()
                 caller = sys._getframe(2).f_code.co_name if sys._getframe(1).f_code.co_name == '_execute_watcher' else '?'
                 via = {'_call_watcher': False, '_batch_call_watchers': True}.get(caller)
                 # 'kwargs' mode (watch_values): the callback only sees name=new
@@ -145,14 +157,16 @@ class Runner:
                     runner.stack.pop()
             self.cbs[cbid] = cb
         if w.get('kw'):
-            self.wobjs[wid] = self.obj.param.watch_values(self.cbs[cbid], [self.names[i] for i in w['params']],
+            wo = self.obj.param.watch_values(self.cbs[cbid], [self.names[i] for i in w['params']],
                                                           onlychanged=w['onlychanged'], queued=w['queued'],
                                                           precedence=w['precedence'])
         else:
-            self.wobjs[wid] = self.obj.param.watch(self.cbs[cbid], [self.names[i] for i in w['params']],
-                                                   what=SLOTS[w.get('what', 0)],
-                                                   onlychanged=w['onlychanged'], queued=w['queued'],
-                                                   precedence=w['precedence'])
+            wo = self.obj.param.watch(self.cbs[cbid], [self.names[i] for i in w['params']],
+                                      what=SLOTS[w.get('what', 0)],
+                                      onlychanged=w['onlychanged'], queued=w['queued'],
+                                      precedence=w['precedence'])
+        self.wobjs.setdefault(wid, []).append(wo)
+        self.wall.append((wid, wo))
 
     # -- statements -----------------------------------------------------------
     def _node(self, kind, p=0, old=0, new=0, regs=()):
@@ -252,9 +266,10 @@ class Runner:
             node = self._node('unwatch', s['id'])
 
             def go():
-                w = self.wobjs.get(s['id'])
-                if w is not None:
-                    obj.param.unwatch(w)
+                # every registration made under that id (they are equal tuples, `remove` takes them one by one)
+                for w in self.wobjs.get(s['id'], []):
+                    if any(any(x is w for x in self._wlist(n, sl)) for n in self.names for sl in (0, 1, 2)):
+                        obj.param.unwatch(w)
             self._in(node, go)
         elif k == 'raise':
             raise Boom()
@@ -275,7 +290,7 @@ class Runner:
             try:
                 self.run_stmt(s)
                 res = 'ok'
-            except RecursionError:
+            except (RecursionError, Runaway):
                 raise
             except (Exception, BoomBase) as e:
                 res = _res_of(e)
@@ -290,9 +305,20 @@ def run_impl(case):
         return Runner(case).run_program()
     except RecursionError:
         return {'crash': 'RecursionError'}
+    except Runaway:
+        return {'crash': f'Runaway: more than {MAX_CALLS} callback invocations (the dispatch does not terminate)'}
     except Exception as e:
         import traceback
         return {'crash': f'{type(e).__name__}: {e} @ {traceback.format_exc().splitlines()[-3].strip()}'[:300]}
+
+
+def crash_excused(case, impl, drv):
+    """the Runaway guard is the harness's, not the library's: it only counts as a failure when the model
+    (where dispatch iterates over a snapshot of the watcher list) makes far fewer invocations"""
+    if not str(impl.get('crash', '')).startswith('Runaway'):
+        return False
+    r = drv.ask({'case': case, 'impl': None, 'calls_only': True})
+    return bool(r.get('oof')) or int(r.get('ncalls', 0)) > MAX_CALLS // 4
 
 
 def compare(impl, model):
@@ -360,12 +386,15 @@ def gen_case(rng, prop, max_params=4, max_watchers=5, faults=False, size=8):
         kinds = ['set'] * 5 + ['update'] * 2 + ['batch', 'discard', 'trigger', 'try', 'updateCtx', 'setSlot']
         if not in_body:
             kinds += ['watch', 'unwatch']
+        elif rng.random() < 0.25:
+            # a callback that (un)registers watchers while a dispatch is in progress (one-shot watchers …)
+            kinds += ['watch', 'unwatch', 'unwatch']
         if faults:
             kinds += ['raise', 'try', 'set']
             if rng.random() < 0.15:
                 kinds += ['raiseBase']
         if limit == 0:
-            kinds = [k for k in kinds if k in ('batch', 'discard', 'try', 'raise', 'raiseBase')] or ['try']
+            kinds = [k for k in kinds if k in ('batch', 'discard', 'try', 'raise', 'raiseBase', 'watch', 'unwatch')] or ['try']
         k = rng.choice(kinds)
         if depth <= 0 and k in ('batch', 'discard', 'try', 'updateCtx'):
             if not limit:
@@ -400,10 +429,18 @@ def gen_case(rng, prop, max_params=4, max_watchers=5, faults=False, size=8):
         if k == 'raiseBase':
             return {'s': 'raiseBase'}
         if k == 'watch':
+            if in_body:
+                # a callback may register watchers, but only ones whose own callback does nothing: the
+                # number of invocations then grows linearly, not exponentially, with the events
+                w = mk_watcher(nb)
+                state['made'].append(w)
+                return {'s': 'watch', 'w': w}
             return {'s': 'watch', 'w': mk_for_body()}
         if k == 'unwatch':
             # registrations that share a callback are equal as namedtuples: `unwatch` removes the first
             # equal one, which the id-based model does not track - never unwatch those
+            if in_body:
+                return {'s': 'unwatch', 'id': None}          # chosen below, once every watcher exists
             cands = [i for i in range(max(1, state['next_wid'])) if i not in state['shared']]
             return {'s': 'unwatch', 'id': rng.choice(cands) if cands else state['next_wid'] + 7}
         raise RuntimeError(k)
@@ -433,6 +470,53 @@ def gen_case(rng, prop, max_params=4, max_watchers=5, faults=False, size=8):
               for j in range(nb)]
     watchers = [mk_for_body() for _ in range(rng.randint(1, max_watchers))]
     program = [stmt(3, n, False) for _ in range(rng.randint(1, size))]
+    # `unwatch` inside a callback body: half of the time the callback removes (one of) its own registrations
+    # (a one-shot watcher), otherwise any watcher; never one that shares its callback (see above)
+    def fix(stmts, j):
+        for st in stmts:
+            if st['s'] == 'unwatch' and st['id'] is None:
+                own = [w['id'] for w in state['made'] if w['body'] == j and w['id'] not in state['shared']]
+                anyw = [w['id'] for w in state['made'] if w['id'] not in state['shared']]
+                st['id'] = rng.choice(own) if own and rng.random() < 0.5 else (rng.choice(anyw) if anyw else state['next_wid'] + 7)
+            if 'body' in st:
+                fix(st['body'], j)
+    for j, b in enumerate(bodies):
+        fix(b, j)
+    if rng.random() < 0.12:
+        # several watchers of one (parameter, what) whose callbacks add and remove watchers of that same
+        # list while it is being dispatched (one-shot watchers, self-replacing watchers …)
+        p = rng.randrange(n)
+        what = rng.choice([0, 1] if p in events else [0, 1, 2])
+        bodies.append([])                         # index nb stays the empty body
+        group = []
+        for _ in range(rng.randint(2, 4)):
+            w = mk_watcher(nb)
+            w['params'] = [p]
+            w.pop('kw', None); w.pop('what', None)
+            if what:
+                w['what'] = what
+            group.append(w)
+        for w in group:
+            b = []
+            for _ in range(rng.randint(0, 2)):
+                if rng.random() < 0.7:
+                    b.append({'s': 'unwatch', 'id': rng.choice(group)['id']})
+                else:
+                    nw = mk_watcher(nb)
+                    nw['params'] = [p]
+                    nw.pop('kw', None); nw.pop('what', None)
+                    if what:
+                        nw['what'] = what
+                    b.append({'s': 'watch', 'w': nw})
+            if b:
+                w['body'] = len(bodies)
+                bodies.append(b)
+        for w in group:
+            watchers.insert(rng.randrange(len(watchers) + 1), w)
+        for _ in range(rng.randint(1, 3)):
+            st = {'s': 'setSlot', 'p': p, 'k': what, 'v': rng.choice([0, 1, 2, 3])} if what else \
+                 {'s': 'set', 'p': p, 'v': rng.choice([1, 1, 0, 7]) if p in events else value()}
+            program.insert(rng.randrange(len(program) + 1), st)
     return {'prop': prop, 'level': level, 'events': events, 'bounds': bounds, 'init': init, 'watchers': watchers,
             'bodies': bodies, 'program': program}
 
